@@ -1,6 +1,7 @@
 #!/bin/bash
 # Builds the framework from files on disk only (offline).
 set -euo pipefail
-. /verif/bin/env.sh
-cd /verif/src/simgen && $GO build -o /verif/bin/simgen .
+ROOT=$(dirname "$(dirname "$(readlink -f "$0")")")
+. "$ROOT/bin/env.sh"
+cd "$ROOT/src/simgen" && $GO build -o "$ROOT/bin/simgen" .
 echo "setup ok"
